@@ -27,18 +27,20 @@ T = TypeVar('T')
 def _with_tags_buildable_path(
     value: T,
     tags: Union[tag_type.TagType, Collection[tag_type.TagType]],
+    *more_tags: tag_type.TagType,
 ) -> tagging.TaggedValueCls[T]:
   """Make a `buildable_func` for `AutoConfig`."""
   if isinstance(tags, tag_type.TagType):
-    return tagging.TaggedValue([tags], value)
+    return tagging.TaggedValue([tags, *more_tags], value)
   else:
-    return tagging.TaggedValue(tags, value)
+    return tagging.TaggedValue([*tags, *more_tags], value)
 
 
 @auto_config.with_buildable_func(_with_tags_buildable_path)
 def with_tags(
     value: T,
     tags: Union[tag_type.TagType, Collection[tag_type.TagType]],
+    *more_tags: tag_type.TagType,
 ) -> T:
   """Set tags for a parameter within auto_config.
 
@@ -68,10 +70,13 @@ def with_tags(
   Args:
     value: Default value for the paramter.
     tags: Tags to apply. It can be one tag or a list of tags.
+    *more_tags: Further tags to apply. This is the form the auto_config code
+      generator emits for a parameter with several tags,
+      `auto_config.with_tags(value, TagA, TagB)`.
 
   Returns:
     When called within `auto_config`ed function, return a tagged value.
       Otherwise, aka in normal Python mode, return the default value.
   """
-  del tags
+  del tags, more_tags
   return value
